@@ -211,3 +211,55 @@ def contains_call_to(node: ast.AST, names: set[str]) -> bool:
             if nm in names:
                 return True
     return False
+
+
+# -- status summaries of callees ----------------------------------------------------------
+
+
+def tuple_return_statuses(repo, f: Func, index: int = 0, depth: int = 0) -> frozenset:
+    """Status names a function can return at tuple position `index` (read from its own return statements;
+    a returned variable is resolved through its assignments, including unpacked results of other such callees)."""
+    out: set[str] = set()
+    for n in own_nodes(f.node):
+        if isinstance(n, ast.Return) and isinstance(n.value, ast.Tuple) and len(n.value.elts) > index:
+            out |= _status_of_expr(repo, f, n.value.elts[index], depth)
+    return frozenset(out)
+
+
+def _status_of_expr(repo, f: Func, e: ast.AST, depth: int) -> set[str]:
+    s = is_status(e)
+    if s:
+        return {s}
+    if isinstance(e, ast.IfExp):
+        return _status_of_expr(repo, f, e.body, depth) | _status_of_expr(repo, f, e.orelse, depth)
+    if isinstance(e, ast.Name) and depth < 4:
+        out: set[str] = set()
+        found = False
+        for n in own_nodes(f.node):
+            if isinstance(n, ast.Assign):
+                for t in n.targets:
+                    if isinstance(t, ast.Name) and t.id == e.id:
+                        found = True
+                        out |= _status_of_expr(repo, f, n.value, depth + 1)
+                    elif isinstance(t, ast.Tuple):
+                        for i, el in enumerate(t.elts):
+                            if isinstance(el, ast.Name) and el.id == e.id:
+                                found = True
+                                if isinstance(n.value, ast.Call):
+                                    g = repo.resolve_call(f, n.value)
+                                    if g is not None:
+                                        out |= tuple_return_statuses(repo, g, i, depth + 1)
+                                    else:
+                                        out.add("?")
+                                elif isinstance(n.value, ast.Tuple):
+                                    out |= _status_of_expr(repo, f, n.value.elts[i], depth + 1)
+                                else:
+                                    out.add("?")
+        return out if found else {"?"}
+    if isinstance(e, ast.Attribute) and e.attr == "status":
+        return {"PASS:" + ast.unparse(e)}
+    return {"?"}
+
+
+def loads_of(fn_node: ast.AST, name: str) -> list[ast.Name]:
+    return [n for n in own_nodes(fn_node) if isinstance(n, ast.Name) and n.id == name and isinstance(n.ctx, ast.Load)]
